@@ -282,6 +282,18 @@ def reset_shared():
     _SHARED.clear()
 
 
+_LATE = []
+
+
+def fill_late():
+    """Give the `late` self-rendering objects built since the last call their final markup."""
+    n = len(_LATE)
+    for o, s in _LATE:
+        o.s = s
+    del _LATE[:]
+    return n
+
+
 # ------------------------------------------------------------------ builder
 def _noop_hook(value):
     return None
@@ -338,6 +350,12 @@ def _build(r):
     if k == "html":
         return HTMLSub(r["s"]) if r.get("sub") else ht.HTML(r["s"])
     if k == "obj":
+        if r.get("late"):
+            # the object gets its final markup only after it was placed in the tree (fill_late()): what is rendered is what
+            # the object returns when the tree is rendered
+            o = ReprObj("<u>not filled in yet</u>")
+            _LATE.append((o, r["s"]))
+            return o
         return ReprObj(r["s"])
     if k == "meta":
         if r.get("repr"):
